@@ -782,7 +782,7 @@ def processLine (line : String) : Option String :=
         | "meta12" => checkEq "C12" ans
         | "meta13" => checkEq "C13" ans
         | "digest" => {}
-        | "serde" => ({} : Verdict).add (getF ans "BAD" == "") "S:C20"
+        | "serde" => (({} : Verdict).add (getF ans "BAD" == "") "S:C20").add (getF ans "ACCEPTED" == "") "S:C19"
         | _ => ({} : Verdict).add false "M:unknown-op"
       -- a call that panics outright gives no answer at all: every property about its result is violated
       let v := if panicked then v.add false "S:PANIC" else v
